@@ -100,6 +100,11 @@ int main(int argc, char** argv) {
       std::vector<OperandSpec> m6; m6.push_back(opnd<F>("empty", 6, hra, "", 0)); m6.push_back(opnd<F>("k6n40", 6, hra, rep("1230", 40).c_str(), 0));
       m6.push_back(opnd<F>("k6n240c0", 6, hra, rep("0132", 240).c_str(), 0)); m6.push_back(opnd<F>("k6n240c1", 6, hra, rep("3102", 240).c_str(), 1));
       m6.push_back(opnd<F>("k6n500c1", 6, hra, rep("2013", 500).c_str(), 1));
+      // operands of a much larger k merged into the k = 4 sketch: the half promoted from the old top level can overflow the level
+      // that the same compression pass has just added
+      std::vector<OperandSpec> m4; m4.push_back(opnd<F>("empty", 4, hra, "", 0)); m4.push_back(opnd<F>("k12n150c0", 12, hra, rep("0132", 150).c_str(), 0));
+      m4.push_back(opnd<F>("k50n290c1", 50, hra, rep("3102", 290).c_str(), 1)); m4.push_back(opnd<F>("k20n130c0", 20, hra, rep("2013", 130).c_str(), 0));
+      add_tasks<F>(tasks, cfg, "req-float-bigk-operands", sub, m4, 0, 0, 330, 2, 64, 300, 4);
       std::vector<Cfg> sub6; { Cfg c6; c6.k = 6; c6.hra = hra; c6.init_coin = 0; sub6.push_back(c6); }
       add_tasks<F>(tasks, cfg, "req-float", sub6, m6, 0, 0, 520, 2, 64, 300, 4);
     }
